@@ -254,10 +254,19 @@ func VerifC09_OneRolloutPerWorkload() {
 	r := c09ValidRollout("new")
 	other := c09ValidRollout("other")
 	other.Name = verifrt.String("other.name")
+	selfInList := verifrt.IntRange("self.inList", 0, 2)
 	cli := &symclient.Client{}
 	cli.ListFn = func(list client.ObjectList, opts []client.ListOption) error {
 		l := list.(*appsv1beta1.RolloutList)
-		l.Items = []appsv1beta1.Rollout{*other}
+		// an UPDATE finds the Rollout's own stored copy in the list too, before or after the other one
+		switch selfInList {
+		case 1:
+			l.Items = []appsv1beta1.Rollout{*r.DeepCopy(), *other}
+		case 2:
+			l.Items = []appsv1beta1.Rollout{*other, *r.DeepCopy()}
+		default:
+			l.Items = []appsv1beta1.Rollout{*other}
+		}
 		return nil
 	}
 	h := &RolloutCreateUpdateHandler{Client: cli}
